@@ -235,7 +235,10 @@ func zzRun(name string, tokens []string, max int, pred func(string) string) {
 		}
 		cmd := exec.Command("go", "test", "-tags", "verif", "-overlay", ovFile, "-vet=off", "-count=1", "-timeout", fmt.Sprintf("%ds", int(to.Seconds())), "-v", "-run", "^TestZZBounded$", ".")
 		cmd.Dir = dir
-		cmd.Env = append(os.Environ(), "GOFLAGS=-mod=mod", "GOPROXY=off", "GOSUMDB=off", "GOTOOLCHAIN=local")
+		// temporary files of the predicates live (and die) with the scratch directory
+		tmpd := filepath.Join(tmp, "tmp")
+		os.MkdirAll(tmpd, 0o755)
+		cmd.Env = append(os.Environ(), "GOFLAGS=-mod=mod", "GOPROXY=off", "GOSUMDB=off", "GOTOOLCHAIN=local", "TMPDIR="+tmpd)
 		out, err := cmd.CombinedOutput()
 		re := regexp.MustCompile(`(?m)^ZZBOUNDED (\S+) cases=(\d+) fail=("(?:[^"\\]|\\.)*") msg=("(?:[^"\\]|\\.)*") panic=("(?:[^"\\]|\\.)*")$`)
 		for _, m := range re.FindAllStringSubmatch(string(out), -1) {
